@@ -305,7 +305,10 @@ int XMLAbstractDoubleFloat::compareValues(const XMLAbstractDoubleFloat* const lV
     //
     else
     {
-        return (-1) * compareSpecial(rValue, manager);
+        // NaN is not comparable with a normal value whichever side it
+        // is on: INDETERMINATE has no mirror image
+        int result = compareSpecial(rValue, manager);
+        return (result == INDETERMINATE) ? INDETERMINATE : (-1) * result;
     }
 }
 
